@@ -233,4 +233,18 @@ def c18(run, ck):
                 assumptions=["match patterns carry no span obligation"])
 
 
-PIPELINES = {"C02": c02, "C18": c18, "C12": c12, "C10": c10, "C09": c09, "C03": c03, "C04": c04, "C05": c05, "C06": c06, "C07": c07, "C08": c08}
+def c13(run, ck):
+    out = os.path.join(run.work, "literals.ndjson")
+    run.drive("literals", 4000 if run.thorough else 250, out)
+    verdicts, recs = run.validate(out, "Trace_Lit", cfg="Trace_Lit.cfg", parts=8, label="literals")
+    def describe(rec, v):
+        t = rec.get("text", "")
+        kind = "bytes" if t.lstrip("-").startswith("b") and len(t) > 1 and t.lstrip("-")[1] in "'\"" else "fstr" if t.startswith("f'") or t.startswith('f"') else "raw" if t.startswith("r'") or t.startswith('r"') else "str" if t[:1] in "'\"" else "hex" if "0x" in t.lower() else "float" if any(c in t for c in ".eE") else "int"
+        return kind + ("-u" if t.lower().endswith("u") and kind in ("int", "hex") else "") + ("-neg" if rec.get("neg") else "")
+    simple_violations(run, ck, verdicts, recs, "literals", describe=describe)
+    return dict(rule="boundary and random 64-bit integers in decimal / hex / u spellings with and without unary minus; finite doubles (boundary + random bit patterns) as shortest, exponent, 17- and 20-digit and leading-dot spellings; "
+                     "strings and byte strings over the code-point ladder with a random escape form per character; raw and f-prefixed forms; every malformed/truncated escape pattern; TLC re-lexes the characters",
+                assumptions=["doubles with more than 40 digits or exponents beyond +-400 are outside the modelled fragment (unknown)"])
+
+
+PIPELINES = {"C13": c13, "C02": c02, "C18": c18, "C12": c12, "C10": c10, "C09": c09, "C03": c03, "C04": c04, "C05": c05, "C06": c06, "C07": c07, "C08": c08}
